@@ -9,13 +9,14 @@ Import ListNotations.
 (** a view is removed by a TWO-element chain (a three-element chain filters its children) *)
 Definition view_hit (G : list (list bytes)) (sn n : bytes) : bool :=
   existsb (fun g => match g with [g0; g1] => sel typeS g0 sn && sel typeV g1 n | _ => false end) G.
-(** a function / procedure is removed by a chain of two OR MORE elements whose second element selects it
-    (exclude_oss.go excludeS: the function and procedure filters do not look at len(glob)) *)
+(** a function / procedure is removed by a TWO-element chain whose second element selects it (after fix
+    C19-exclude-routine-child-pattern; a three-element chain addresses a child of a table / view and leaves it alone) *)
 Definition routine_hit (ty : bytes) (G : list (list bytes)) (sn n : bytes) : bool :=
-  existsb (fun g => match g with g0 :: g1 :: _ => sel typeS g0 sn && sel ty g1 n | _ => false end) G.
-(** the statement one would expect: only a two-element chain removes a function / procedure *)
-Definition routine_hit_strict (ty : bytes) (G : list (list bytes)) (sn n : bytes) : bool :=
   existsb (fun g => match g with [g0; g1] => sel typeS g0 sn && sel ty g1 n | _ => false end) G.
+Definition routine_hit_strict := routine_hit.
+(** before the fix: a chain of two OR MORE elements (the function and procedure filters of excludeS did not look at len(glob)) *)
+Definition routine_hit_before_fix (ty : bytes) (G : list (list bytes)) (sn n : bytes) : bool :=
+  existsb (fun g => match g with g0 :: g1 :: _ => sel typeS g0 sn && sel ty g1 n | _ => false end) G.
 Definition xschema_hit (G : list (list bytes)) (sn : bytes) : bool :=
   existsb (fun g => match g with [g0] => sel typeS g0 sn | _ => false end) G.
 
@@ -82,8 +83,14 @@ Lemma excludeSX_names link s g1 gtl s' : excludeSX link s (g1 :: gtl) = EOk s' -
                                 | [] => filter (fun n => negb (sel typeV g1 n)) (map v_name (xs_views s))
                                 | _ :: _ => map v_name (xs_views s)
                                 end
-  /\ xs_funcs s' = filter (fun n => negb (sel typeFn g1 n)) (xs_funcs s)
-  /\ xs_procs s' = filter (fun n => negb (sel typePr g1 n)) (xs_procs s).
+  /\ xs_funcs s' = match gtl with
+                   | [] => filter (fun n => negb (sel typeFn g1 n)) (xs_funcs s)
+                   | _ :: _ => xs_funcs s
+                   end
+  /\ xs_procs s' = match gtl with
+                   | [] => filter (fun n => negb (sel typePr g1 n)) (xs_procs s)
+                   | _ :: _ => xs_procs s
+                   end.
 Proof.
   unfold excludeSX. destruct (excludeObjects (xs_objects s) (g1 :: gtl)) as [objs|e]; [|discriminate].
   rewrite !excludeType_eq.
@@ -91,13 +98,19 @@ Proof.
             else EOk (xs_tables s)) as [tabs|e]; [|discriminate].
   destruct (if admits typeV g1 then loopX v_name excludeV (glob_of g1) gtl (xs_views s) else EOk (xs_views s))
     as [views|e] eqn:EV; [|discriminate].
-  destruct (filter_names typeFn g1 (xs_funcs s)) as [funcs|e] eqn:EF; [|discriminate].
-  destruct (filter_names typePr g1 (xs_procs s)) as [procs|e] eqn:EP; [|discriminate].
-  intros H. inversion H; subst. simpl.
-  split; [reflexivity|]. split; [|split; [exact (filter_names_ok _ _ _ _ EF)|exact (filter_names_ok _ _ _ _ EP)]].
-  unfold sel. destruct (admits typeV g1); simpl.
-  - exact (loopX_view_names (glob_of g1) gtl (xs_views s) views EV).
-  - inversion EV; subst. destruct gtl; [symmetry; apply filter_true|reflexivity].
+  assert (HV : map v_name views = match gtl with
+                                  | [] => filter (fun n => negb (sel typeV g1 n)) (map v_name (xs_views s))
+                                  | _ :: _ => map v_name (xs_views s)
+                                  end).
+  { unfold sel. destruct (admits typeV g1); simpl.
+    - exact (loopX_view_names (glob_of g1) gtl (xs_views s) views EV).
+    - inversion EV; subst. destruct gtl; [symmetry; apply filter_true|reflexivity]. }
+  destruct gtl as [|g2 gtl'].
+  - destruct (filter_names typeFn g1 (xs_funcs s)) as [funcs|e] eqn:EF; [|discriminate].
+    destruct (filter_names typePr g1 (xs_procs s)) as [procs|e] eqn:EP; [|discriminate].
+    intros H. inversion H; subst. simpl.
+    split; [reflexivity|]. split; [exact HV|]. split; [exact (filter_names_ok _ _ _ _ EF)|exact (filter_names_ok _ _ _ _ EP)].
+  - intros H. inversion H; subst. simpl. split; [reflexivity|]. split; [exact HV|]. split; reflexivity.
 Qed.
 
 Lemma filter_filter_neg {A} (p q : A -> bool) l :
@@ -140,8 +153,8 @@ Proof.
         unfold view_hit, routine_hit in *. simpl.
         split; [|split].
         + rewrite B. apply filter_ext. intros n. destruct gtl as [|g1 [|g2 gtl']]; try reflexivity. rewrite Hs. reflexivity.
-        + rewrite C. apply filter_ext. intros n. destruct gtl as [|g1 gtl']; try reflexivity. rewrite Hs. reflexivity.
-        + rewrite D. apply filter_ext. intros n. destruct gtl as [|g1 gtl']; try reflexivity. rewrite Hs. reflexivity.
+        + rewrite C. apply filter_ext. intros n. destruct gtl as [|g1 [|g2 gtl']]; try reflexivity. rewrite Hs. reflexivity.
+        + rewrite D. apply filter_ext. intros n. destruct gtl as [|g1 [|g2 gtl']]; try reflexivity. rewrite Hs. reflexivity.
       - unfold xschema_hit in *. simpl. rewrite IH. rewrite ?orb_true_r. reflexivity. }
     unfold sel in NOHIT. unfold sel.
     destruct (admits typeS g0) eqn:EA; simpl in *.
@@ -159,8 +172,12 @@ Proof.
               ** rewrite B, V1. destruct gtl' as [|g2 gtl''].
                  --- rewrite filter_filter_neg. apply filter_ext. intros n. rewrite HS. reflexivity.
                  --- apply filter_ext. intros n. reflexivity.
-              ** rewrite C, F1. rewrite filter_filter_neg. apply filter_ext. intros n. rewrite HS. reflexivity.
-              ** rewrite D, P1. rewrite filter_filter_neg. apply filter_ext. intros n. rewrite HS. reflexivity.
+              ** rewrite C, F1. destruct gtl' as [|g2 gtl''].
+                 --- rewrite filter_filter_neg. apply filter_ext. intros n. rewrite HS. reflexivity.
+                 --- apply filter_ext. intros n. reflexivity.
+              ** rewrite D, P1. destruct gtl' as [|g2 gtl''].
+                 --- rewrite filter_filter_neg. apply filter_ext. intros n. rewrite HS. reflexivity.
+                 --- apply filter_ext. intros n. reflexivity.
            ++ rewrite N1 in IH. unfold xschema_hit in *. simpl. rewrite IH. rewrite ?orb_true_r. reflexivity.
       * apply NOHIT; [rewrite EM; reflexivity|exact H].
     + apply NOHIT; [reflexivity|exact H].
@@ -240,8 +257,9 @@ Proof.
     intros H.
     assert (HT : xs_tables s' = tabs /\ xs_name s' = xs_name s).
     { destruct (if exV then loopX v_name excludeV globV gtl (xs_views s) else EOk (xs_views s)); [|discriminate].
-      destruct (filter_names typeFn g0 (xs_funcs s)); [|discriminate].
-      destruct (filter_names typePr g0 (xs_procs s)); [|discriminate]. inversion H; subst. split; reflexivity. }
+      destruct (match gtl with [] => filter_names typeFn g0 (xs_funcs s) | _ :: _ => EOk (xs_funcs s) end); [|discriminate].
+      destruct (match gtl with [] => filter_names typePr g0 (xs_procs s) | _ :: _ => EOk (xs_procs s) end); [|discriminate].
+      inversion H; subst. split; reflexivity. }
     destruct HT as [HT HN]. clear H.
     assert (Hloop : forall l tabs, loopX (fun t => t_name (xt_t t)) (excludeTX link) globT gtl l = EOk tabs ->
       (fix loop (l : list table) : eres (list table) :=
@@ -278,8 +296,9 @@ Proof.
     cbv zeta. unfold proj_schema at 1. cbn [s_tables]. rewrite (Hloop _ _ EL).
     unfold set_s_tables, proj_schema. cbn [s_name]. rewrite HT, HN. reflexivity.
   - destruct (if exV then loopX v_name excludeV globV gtl (xs_views s) else EOk (xs_views s)); [|discriminate].
-    destruct (filter_names typeFn g0 (xs_funcs s)); [|discriminate].
-    destruct (filter_names typePr g0 (xs_procs s)); [|discriminate]. intros H. inversion H; subst. reflexivity.
+    destruct (match gtl with [] => filter_names typeFn g0 (xs_funcs s) | _ :: _ => EOk (xs_funcs s) end); [|discriminate].
+    destruct (match gtl with [] => filter_names typePr g0 (xs_procs s) | _ :: _ => EOk (xs_procs s) end); [|discriminate].
+    intros H. inversion H; subst. reflexivity.
 Qed.
 
 Lemma applyGlobsX_proj link : forall G s o, applyGlobsX link s G = EOk o ->
@@ -381,8 +400,10 @@ Proof.
   { destruct (admits typeV g1); [|eexists; reflexivity].
     apply loopX_total; [exact H1|]. intros x g Hg. apply excludeV_total. exact (Hhd g Hg). }
   destruct EV as [vs EV]. rewrite EV.
-  destruct (filter_names_total typeFn g1 (xs_funcs s) H1) as [fs EF]. rewrite EF.
-  destruct (filter_names_total typePr g1 (xs_procs s) H1) as [ps EP]. rewrite EP. eexists; reflexivity.
+  destruct gtl as [|g2 gtl'].
+  - destruct (filter_names_total typeFn g1 (xs_funcs s) H1) as [fs EF]. rewrite EF.
+    destruct (filter_names_total typePr g1 (xs_procs s) H1) as [ps EP]. rewrite EP. eexists; reflexivity.
+  - eexists; reflexivity.
 Qed.
 
 Lemma applyGlobsX_total link : forall G, chains_ok G -> forall s, exists o, applyGlobsX link s G = EOk o.
@@ -419,4 +440,34 @@ Proof.
   intros Hs HG. unfold ExcludeRealmX. destruct patterns as [|p ps]; [eexists; reflexivity|].
   rewrite Hs. destruct (realmObjects_total G HG (xr_objects r)) as [o E]. rewrite E.
   destruct (filterSchemasX_total link G HG (xr_schemas r)) as [ss E2]. rewrite E2. eexists; reflexivity.
+Qed.
+
+(** ** after fix C19-exclude-routine-child-pattern: patterns that address children leave functions and procedures alone *)
+Lemma three_chains_no_hit ty G sn n : Forall (fun g => length g = 3%nat) G ->
+  routine_hit ty G sn n = false /\ xschema_hit G sn = false.
+Proof.
+  induction G as [|g G IH]; intros H; [split; reflexivity|].
+  inversion H as [|g' G' Hg HG]; subst. destruct (IH HG) as [A B].
+  unfold routine_hit, xschema_hit in *. simpl. rewrite A, B.
+  destruct g as [|a [|b [|c [|d l]]]]; simpl in Hg; try discriminate; split; reflexivity.
+Qed.
+
+Theorem child_patterns_keep_routines link r patterns G r' :
+  patterns <> [] -> split patterns = EOk G -> Forall (fun g => length g = 3%nat) G ->
+  ExcludeRealmX link r patterns = EOk r' ->
+  map (fun s => (xs_name s, xs_funcs s, xs_procs s)) (xr_schemas r')
+  = map (fun s => (xs_name s, xs_funcs s, xs_procs s)) (xr_schemas r).
+Proof.
+  intros Hne Hs H3 H. pose proof (ExcludeRealmX_names link r patterns G r' Hne Hs H) as N.
+  set (P := fun t : bytes * list bytes * list bytes * list bytes => (fst (fst (fst t)), snd (fst t), snd t)).
+  assert (HP : forall l, map P (map names_of l) = map (fun s => (xs_name s, xs_funcs s, xs_procs s)) l)
+    by (intros l0; rewrite map_map; reflexivity).
+  rewrite <- (HP (xr_schemas r')). rewrite N. rewrite map_map. clear N HP H.
+  induction (xr_schemas r) as [|s l IH]; [reflexivity|].
+  simpl. destruct (three_chains_no_hit typeFn G (xs_name s) [] H3) as [_ B]. rewrite B. simpl.
+  rewrite IH. f_equal. unfold P, ref_names. simpl. f_equal; [f_equal|].
+  - rewrite <- (filter_true (xs_funcs s)) at 2. apply filter_ext. intros n.
+    destruct (three_chains_no_hit typeFn G (xs_name s) n H3) as [A _]. rewrite A. reflexivity.
+  - rewrite <- (filter_true (xs_procs s)) at 2. apply filter_ext. intros n.
+    destruct (three_chains_no_hit typePr G (xs_name s) n H3) as [A _]. rewrite A. reflexivity.
 Qed.
